@@ -531,8 +531,9 @@ package, imports (plain / public / weak), services with methods (unary and strea
 nested messages and enums, fields (no label / `repeated` / `optional`; scalar, relative,
 package-qualified and fully-qualified type names; any number, negative ones included), enum values —
 real oneofs, map fields — with or without source locations (lines; the printer orders the children of a
-block by them and leaves a gap where the source left a line free), without options, comments, extensions and
-custom JSON names (those are covered by the stream, not yet by the theorem). -/
+block by them and leaves a gap where the source left a line free), bracket options and custom JSON names of fields,
+statement options of messages and enums — without comments, extensions, options of files / oneofs / services /
+methods / enum values (those are covered by the stream, not yet by the theorem). -/
 
 open Layout Grammar Reparse in
 /-- **parse (print d) = d′ with d′ ≍ d, and print d′ = print d.** For every `d` whose printed
@@ -620,6 +621,27 @@ theorem optEx_ok : SimpleFile "gen" optEx.arranged :=
 
 /-- `C05_reparse` applies to it -/
 example := C05_reparse "gen" optEx optEx_ok
+
+/-- statement options: the shape of a j5s-compiled message (`option (j5.ext.v1.message).object = {};`, a gap, fields
+with bracket options and `json_name`), a nested enum with an option and no values, source lines on every element -/
+def exMsgOpt : SOpt := ⟨"(j5.ext.v1.message).object", [.msg "" []], false, false, false, 0, 0, "j5.ext.v1.message"⟩
+def stmtEx : FileD :=
+  ⟨Loc.none, "p.v1", [("j5/ext/v1/annotations.proto", "")], [], [],
+   [ .block "message" 1 ⟨5, 12, [], "", ""⟩ 0 "Spec" [exMsgOpt]
+       [ .field ⟨.field, ⟨7, 7, [], "", ""⟩, 0, "", "string", "foo_id", 1, some "foo_id", [exO1]⟩,
+         .block "enum" 2 ⟨9, 11, [], "", ""⟩ 0 "E"
+           [⟨"allow_alias", [.scalar "" "true"], false, false, false, 0, 0, "allow_alias"⟩] [] ],
+     .block "message" 1 ⟨14, 16, [], "", ""⟩ 1 "OnlyOption" [exMsgOpt] [],
+     .block "message" 1 ⟨18, 24, [], "", ""⟩ 2 "Choice" [⟨"(j5.ext.v1.message).oneof", [.msg "" []], false, false, false, 0, 0, "j5.ext.v1.message"⟩]
+       [ .block "oneof" 0 ⟨20, 23, [], "", ""⟩ 0 "type" []
+           [ .field ⟨.field, ⟨21, 21, [], "", ""⟩, 0, "", "Spec", "key", 1, some "key",
+               [⟨"(j5.ext.v1.field).object", [.msg "" []], false, false, false, 0, 0, "j5.ext.v1.field"⟩]⟩ ] ] ]⟩
+
+theorem stmtEx_ok : SimpleFile "gen" stmtEx.arranged :=
+  Cover.simpleFileB_sound "gen" stmtEx.arranged (by decide +kernel)
+
+/-- `C05_reparse` applies to it -/
+example := C05_reparse "gen" stmtEx stmtEx_ok
 
 /-- the example is its own arrangement (the service before the message; fields before the nested message before the enum) -/
 example : simpleEx.arranged = simpleEx := by rfl
